@@ -67,6 +67,7 @@ prop('C01', [
     state.r_norm,
     optab.r_ite_rewrites,
     models.r_operations,
+    models.r_autoref_apply,
 ],
     'every operator alias of dd._abc is interpreted through BDD.apply over '
     'the Boolean domain and compared with its connective (27 aliases, 8 '
@@ -117,6 +118,7 @@ prop('C03', [
     role.r_quant_guard,
     misc.r_quant_vars,
     models.r_operations,
+    models.r_autoref_apply,
 ],
     'complement push-down in _quantify on every path; LOW/HIGH roles into '
     'find_or_add; ite(p, q, -1) under forall / ite(p, 1, q) otherwise are '
@@ -217,6 +219,7 @@ prop('C08', [
     state.r_writers,
     state.r_pair,
     memo.r_inval,
+    models.r_autoref_apply,
 ],
     'Function.__init__ takes exactly one count on every normal path and '
     'none before a rejection; __del__ gives back exactly one, once '
